@@ -19,6 +19,30 @@ macro_rules! lib {
     };
 }
 
+/// Drop with a panic armed inside the dk-th payload destructor that runs (0 = none): the destruction is
+/// recorded first, the remaining values are dropped while unwinding, and the block must still be returned.
+macro_rules! ldrop {
+    ($cx:expr, $dk:expr, $e:expr) => {{
+        let x = $e;
+        tok::drop_panic_at($dk);
+        let r = track(|| catch_unwind(AssertUnwindSafe(move || drop(x)))).0;
+        tok::drop_panic_at(0);
+        if r.is_err() && !$cx.labels.contains(&"a payload destructor panicked") {
+            $cx.labels.push("a payload destructor panicked");
+        }
+        drop(r);
+    }};
+}
+
+fn dk_of(c: &ByteCase) -> i64 {
+    let b = c.p(9);
+    if b & 3 == 3 {
+        1 + ((b >> 2) % 5) as i64
+    } else {
+        0
+    }
+}
+
 pub trait TokP: Payload + Send + Sync {}
 impl<T: Payload + Send + Sync> TokP for T {}
 
@@ -105,6 +129,7 @@ fn check_freed(cx: &Cx, bl: &Block) {
 impl<Hd: TokP, El: TokP> UninitEngine<Hd, El> {
     /// sized: Arc<MaybeUninit<El>> and UniqueArc<MaybeUninit<El>>
     fn sized(cx: &mut Cx, c: &ByteCase) {
+        let dk = dk_of(c);
         let via_unique = c.p(1) & 1 == 1;
         let written = c.p(2) & 1 == 1;
         let nclones = pick(c.p(3), 5);
@@ -122,8 +147,19 @@ impl<Hd: TokP, El: TokP> UninitEngine<Hd, El> {
         let mut a: Arc<MaybeUninit<El>> = if via_unique {
             let mut u = lib!(UniqueArc::<El>::new_uninit());
             if written {
-                let r = lib!(u.write(El::make(v0)));
-                ids.push(r.peekp().id);
+                if c.p(5) & 2 == 2 {
+                    // initialise through the raw accessor
+                    let (p, eff) = track(|| u.as_mut_ptr());
+                    if p as usize != &*u as *const MaybeUninit<El> as usize || !eff.allocs.is_empty() || !eff.frees.is_empty() {
+                        viol::report(&["C15", "C11"], "I.as-mut-ptr", format!("{}: UniqueArc<MaybeUninit<T>>::as_mut_ptr returned {:#x}, the value lives at {:#x}", cx.what, p as usize, &*u as *const MaybeUninit<El> as usize));
+                    }
+                    let v = El::make(v0);
+                    ids.push(v.peekp().id);
+                    unsafe { (p as *mut El).write(v) };
+                } else {
+                    let r = lib!(u.write(El::make(v0)));
+                    ids.push(r.peekp().id);
+                }
             }
             lib!(u.shareable())
         } else {
@@ -140,10 +176,27 @@ impl<Hd: TokP, El: TokP> UninitEngine<Hd, El> {
             viol::report(&["C15", "C05"], "I.block", format!("{}: heap_ptr is not a block start", cx.what));
         }
         let clones: Vec<Arc<MaybeUninit<El>>> = (0..nclones).map(|_| lib!(a.clone())).collect();
+        if c.p(5) & 1 == 1 {
+            // the pointer accessor is an accessor: same address as Deref, same allocation, same count, in any
+            // sharing state (it is what a unique owner initialises through)
+            let before = (&*a as *const MaybeUninit<El> as usize, Arc::count(&a), a.heap_ptr() as usize);
+            let (p, eff) = track(|| a.as_mut_ptr());
+            let after = (&*a as *const MaybeUninit<El> as usize, Arc::count(&a), a.heap_ptr() as usize);
+            if p as usize != before.0 || after != before || !eff.allocs.is_empty() || !eff.frees.is_empty() {
+                viol::report(
+                    &["C15", "C11", "C04"],
+                    "I.as-mut-ptr",
+                    format!("{}: Arc<MaybeUninit<T>>::as_mut_ptr returned {:#x}; (value address, count, block) went from {:x?} to {:x?} with {} allocations / {} frees", cx.what, p as usize, before, after, eff.allocs.len(), eff.frees.len()),
+                );
+            }
+            if nclones > 0 {
+                cx.labels.push("as_mut_ptr-while-shared");
+            }
+        }
         match fate {
             0 => {
-                lib!(drop(clones));
-                lib!(drop(a));
+                ldrop!(cx, dk, clones);
+                ldrop!(cx, dk, a);
                 check_written_leaked(cx, &ids);
                 check_freed(cx, &bl);
                 cx.nt = written;
@@ -189,8 +242,8 @@ impl<Hd: TokP, El: TokP> UninitEngine<Hd, El> {
                         }
                     }
                 }
-                lib!(drop(clones));
-                lib!(drop(a));
+                ldrop!(cx, dk, clones);
+                ldrop!(cx, dk, a);
                 check_written_leaked(cx, &ids);
                 check_freed(cx, &bl);
             }
@@ -208,8 +261,8 @@ impl<Hd: TokP, El: TokP> UninitEngine<Hd, El> {
                         Some(id) => ids.push(id),
                         None => {
                             // shared and unwritten: cannot initialise safely; drop instead
-                            lib!(drop(clones));
-                            lib!(drop(a));
+                            ldrop!(cx, dk, clones);
+                            ldrop!(cx, dk, a);
                             check_freed(cx, &bl);
                             return;
                         }
@@ -228,18 +281,18 @@ impl<Hd: TokP, El: TokP> UninitEngine<Hd, El> {
                 let inits: Vec<Arc<El>> = clones.into_iter().map(|cl| lib!(unsafe { cl.assume_init() })).collect();
                 if fate == 3 {
                     let o: OffsetArc<El> = lib!(Arc::into_raw_offset(init));
-                    lib!(drop(inits));
+                    ldrop!(cx, dk, inits);
                     for id in &ids {
                         if *id != tok::NONE && tok::info(*id).map(|t| t.state) != Some(State::Live) {
                             viol::report(&["C15", "C01"], "I.early-drop", format!("{}: element destroyed while an OffsetArc still owns it", cx.what));
                         }
                     }
-                    lib!(drop(o));
+                    ldrop!(cx, dk, o);
                     cx.nt = true;
                     cx.labels.push("assume_init-then-release-via-other-kind");
                 } else {
-                    lib!(drop(init));
-                    lib!(drop(inits));
+                    ldrop!(cx, dk, init);
+                    ldrop!(cx, dk, inits);
                 }
                 check_all_dropped_once(cx, &ids, "after the last initialised handle was released");
                 check_freed(cx, &bl);
@@ -249,6 +302,7 @@ impl<Hd: TokP, El: TokP> UninitEngine<Hd, El> {
 
     /// slices: Arc<[MaybeUninit<El>]>, UniqueArc<[MaybeUninit<El>]>, UniqueArc<HeaderSlice<Hd,[MaybeUninit<El>]>>
     fn slice(cx: &mut Cx, c: &ByteCase, with_header: bool) {
+        let dk = dk_of(c);
         let via_unique = c.p(1) & 1 == 1 || with_header;
         let len = [0usize, 1, 2, 3, 4, 5, 6, 7, 8, 9, 10, 12, 15, 16, 17, 20, 24, 25, 31, 32, 33, 48, 63, 64, 65, 100][pick(c.p(2), 26)];
         let mask = u32::from_le_bytes([c.p(5), c.p(6), c.p(7), c.p(8)]);
@@ -287,7 +341,7 @@ impl<Hd: TokP, El: TokP> UninitEngine<Hd, El> {
             let bl = block_of(&u.header as *const Hd as usize);
             let written: Vec<u32> = ids.iter().flatten().copied().collect();
             if fate == 0 || fate == 2 {
-                lib!(drop(u));
+                ldrop!(cx, dk, u);
                 check_written_leaked(cx, &written);
                 check_header_once::<Hd>(cx, hdr_id, "after the uninitialised handle was dropped (the header is initialised)");
                 check_freed(cx, &bl);
@@ -310,7 +364,7 @@ impl<Hd: TokP, El: TokP> UninitEngine<Hd, El> {
                 }
                 let a = lib!(init.shareable());
                 let cl = lib!(a.clone());
-                lib!(drop(a));
+                ldrop!(cx, dk, a);
                 let all: Vec<u32> = ids.iter().flatten().copied().chain(hdr_id).collect();
                 for id in &all {
                     if *id != tok::NONE && tok::info(*id).map(|t| t.state) != Some(State::Live) {
@@ -318,7 +372,7 @@ impl<Hd: TokP, El: TokP> UninitEngine<Hd, El> {
                     }
                 }
                 check_header_alive::<Hd>(cx, hdr_id);
-                lib!(drop(cl));
+                ldrop!(cx, dk, cl);
                 check_all_dropped_once(cx, &all, "after the last initialised handle was released");
                 check_header_once::<Hd>(cx, hdr_id, "after the last initialised handle was released");
                 check_freed(cx, &bl);
@@ -342,7 +396,7 @@ impl<Hd: TokP, El: TokP> UninitEngine<Hd, El> {
                     viol::report(P, "I.assume-init", format!("{}: assume_init_slice moved the allocation", cx.what));
                 }
                 let bl = block_of(addr.max(8) - 8);
-                lib!(drop(init));
+                ldrop!(cx, dk, init);
                 let all: Vec<u32> = ids.iter().flatten().copied().collect();
                 check_all_dropped_once(cx, &all, "after the initialised UniqueArc was dropped");
                 check_freed(cx, &bl);
@@ -363,8 +417,8 @@ impl<Hd: TokP, El: TokP> UninitEngine<Hd, El> {
         let written: Vec<u32> = ids.iter().flatten().copied().collect();
         match fate {
             0 => {
-                lib!(drop(a));
-                lib!(drop(clones));
+                ldrop!(cx, dk, a);
+                ldrop!(cx, dk, clones);
                 check_written_leaked(cx, &written);
                 check_freed(cx, &bl);
                 cx.nt = nwritten > 0 && nwritten < len;
@@ -407,8 +461,8 @@ impl<Hd: TokP, El: TokP> UninitEngine<Hd, El> {
                         }
                     }
                 }
-                lib!(drop(clones));
-                lib!(drop(a));
+                ldrop!(cx, dk, clones);
+                ldrop!(cx, dk, a);
                 check_written_leaked(cx, &written);
                 check_freed(cx, &bl);
             }
@@ -418,7 +472,7 @@ impl<Hd: TokP, El: TokP> UninitEngine<Hd, El> {
                 let complete = ids.iter().all(|i| i.is_some());
                 if !complete {
                     if nclones > 0 {
-                        lib!(drop(std::mem::take(&mut clones)));
+                        ldrop!(cx, dk, std::mem::take(&mut clones));
                     }
                     match Arc::get_mut(&mut a) {
                         Some(s) => write_slots(s, &mut ids, true),
@@ -444,20 +498,20 @@ impl<Hd: TokP, El: TokP> UninitEngine<Hd, El> {
                 let all: Vec<u32> = ids.iter().flatten().copied().collect();
                 if fate == 3 {
                     let last = lib!(init.clone());
-                    lib!(drop(init));
-                    lib!(drop(inits));
+                    ldrop!(cx, dk, init);
+                    ldrop!(cx, dk, inits);
                     for id in &all {
                         if *id != tok::NONE && tok::info(*id).map(|t| t.state) != Some(State::Live) {
                             viol::report(&["C15", "C01"], "I.early-drop", format!("{}: tok {} destroyed while a clone still owns the allocation", cx.what, id));
                         }
                     }
                     let hs: Arc<HeaderSlice<(), [El]>> = lib!(last.into());
-                    lib!(drop(hs));
+                    ldrop!(cx, dk, hs);
                     cx.nt = true;
                     cx.labels.push("assume_init-then-release-via-other-kind");
                 } else {
-                    lib!(drop(inits));
-                    lib!(drop(init));
+                    ldrop!(cx, dk, inits);
+                    ldrop!(cx, dk, init);
                 }
                 check_all_dropped_once(cx, &all, "after the last initialised handle was released");
                 check_freed(cx, &bl);
